@@ -1512,11 +1512,13 @@ class LuaFormatterWriter(LuaASTEchoWriter):
             spaces = re.sub(br'^ *--', b'--', spaces)
 
         # If next non-space is on its own line, indent it at the indent level.
+        # (\Z, not $: $ also matches before a final newline, which would
+        # indent blank lines.)
         spaces = re.sub(
-            br'\n *$', b'\n' + b' ' * self._indent_mult * self._indent,
+            br'\n *\Z', b'\n' + b' ' * self._indent_mult * self._indent,
             spaces)
         if start_pos == 0:
-            spaces = re.sub(br'^ *$', b'', spaces)
+            spaces = re.sub(br'^ *\Z', b'', spaces)
 
         # Collapse regions of 2+ consecutive newlines to 2 newlines.
         # TODO: two blank lines before function defs? classes?
